@@ -70,6 +70,14 @@ struct layout_of<Lay::hilbert, IV, B> { using type = cb::hilbert<IV, B>; };
 template <Lay L, class IV, class B>
 using layout_t = typename layout_of<L, IV, B>::type;
 
+// make_parameter_pack deduces reference types for lvalues; the library's callers
+// pass temporaries. This helper takes copies and hands them over as rvalues.
+template <class... Ts>
+auto pack(Ts... a)
+{
+    return covfie::make_parameter_pack(std::move(a)...);
+}
+
 inline bool have_bmi2()
 {
 #if defined(__BMI2__)
